@@ -181,7 +181,8 @@ class NormalizationContext(AbstractHashQueueContext):
         if len(filterstr.strip()) == 0:
             return event_filters
         for fstr in filterstr.split(","):
-            key_regex = fstr.split(":")
+            # the attribute ends at the first colon, the regex may contain colons itself (name:aten::add)
+            key_regex = fstr.split(":", 1)
             if len(key_regex) != 2:
                 aiulog.log(aiulog.WARN, "FLTR: key:regex pattern not found in event filter. Skipping", fstr)
                 continue
